@@ -186,6 +186,35 @@ def datatype_contracts(tier, seed):
                 # slicing keeps the type and views the buffer
                 s = a[...]
                 check(f'{tag}:slice:view', np.shares_memory(s, a))
+    # operands of DIFFERENT mesh classes (a position advanced by a velocity, a multi-component mesh combined with a plain one of the same shape):
+    # the result keeps the class of the left operand (of the derived class when one operand's class derives from the other's), values as for arrays
+    for n in (1, 3):
+        init = ((3, n), None, np.dtype('float64'))
+        P_ = particles(init)
+        pos, vel = P_.pos, P_.vel
+        pos[...] = rng.randn(*pos.shape)
+        vel[...] = rng.randn(*vel.shape)
+        acc = acceleration(init)
+        acc[...] = rng.randn(*acc.shape)
+        pos0, vel0, acc0 = np.array(pos), np.array(vel), np.array(acc)
+        for nm, lhs, rhs, l0, r0 in (('position+dt*velocity', pos, vel, pos0, vel0), ('velocity+dt*acceleration', vel, acc, vel0, acc0), ('acceleration+velocity', acc, vel, acc0, vel0)):
+            r = lhs + 0.5 * rhs
+            check(f'mixed/{n}:{nm}:result_keeps_the_class_of_the_left_operand', type(r) is type(lhs) and np.allclose(r, l0 + 0.5 * r0), type(r).__name__)
+            x = lhs
+            x += 0.5 * rhs
+            check(f'mixed/{n}:{nm}:augmented_assignment_keeps_the_class', type(x) is type(lhs) and np.allclose(x, l0 + 0.5 * r0) and np.array_equal(lhs, l0), type(x).__name__)
+    for cls in (imex_mesh, comp2_mesh):
+        for shape in (3, (2, 3)):
+            a = rand(cls, shape, np.dtype('float64'))
+            plain = mesh((a.shape, None, np.dtype('float64')))
+            plain[...] = rng.randn(*a.shape)
+            a0, m0 = np.array(a), np.array(plain)
+            for nm, op, want in (('multi-plain', lambda: a - plain, a0 - m0), ('plain-multi', lambda: plain - a, m0 - a0), ('multi*plain', lambda: a * plain, a0 * m0)):
+                r = op()
+                check(f'mixed/{cls.__name__}/{shape}:{nm}:multi_component_class_and_components_kept', type(r) is cls and np.allclose(r, want) and hasattr(r, cls.components[0]), type(r).__name__)
+            x = a
+            x -= plain
+            check(f'mixed/{cls.__name__}/{shape}:isub_plain:class_kept_other_name_unchanged', type(x) is cls and np.array_equal(a, a0) and np.allclose(x, a0 - m0), type(x).__name__)
     # particles / fields / acceleration
     for n in ((1,), (3,)) if tier == 'quick' else ((1,), (3,), (5,)):
         init = ((3, n[0]), None, np.dtype('float64'))
